@@ -32,8 +32,9 @@ namespace _ST_PRIVATE
 
         int format_size = snprintf(buffer, size, format_spec, value);
         ST_ASSERT(format_size > 0, "Your libc doesn't support reporting format size");
-        ST_ASSERT(static_cast<size_t>(format_size) < size, "Format buffer too small");
 
+        // A result >= size means the text was truncated; the caller retries
+        // with a buffer of the reported size (+1 for the terminator).
         return static_cast<size_t>(format_size);
     }
 }
@@ -103,16 +104,25 @@ namespace ST
                 throw ST::bad_format("Unsupported floating-point format specifier");
 
             m_size = _ST_PRIVATE::format_double(m_buffer, sizeof(m_buffer), value, format);
+            if (m_size >= sizeof(m_buffer)) {
+                // e.g. 'f' of 1e100: render again into a heap buffer of the reported size
+                m_heap.allocate(m_size);
+                m_size = _ST_PRIVATE::format_double(m_heap.data(), m_heap.size() + 1, value, format);
+            }
         }
 
         ST_NODISCARD
-        const char *text() const noexcept { return m_buffer; }
+        const char *text() const noexcept
+        {
+            return (m_size < sizeof(m_buffer)) ? m_buffer : m_heap.data();
+        }
 
         ST_NODISCARD
         size_t size() const noexcept { return m_size; }
 
     private:
         char m_buffer[64];
+        ST::char_buffer m_heap;
         size_t m_size;
     };
 }
